@@ -30,9 +30,9 @@ const (
 type AddrKind uint8
 
 const (
-	AField AddrKind = iota // field (path) of heap object Base
-	AElem                  // element Idx of backing array Base
-	AGlobal                // package-level variable
+	AField  AddrKind = iota // field (path) of heap object Base
+	AElem                   // element Idx of backing array Base
+	AGlobal                 // package-level variable
 )
 
 type Addr struct {
@@ -370,7 +370,9 @@ type HArr struct {
 	ups  []HUpd
 }
 
-func (h *HArr) clone() *HArr { return &HArr{key: h.key, sort: h.sort, base: h.base, ups: h.ups[:len(h.ups):len(h.ups)]} }
+func (h *HArr) clone() *HArr {
+	return &HArr{key: h.key, sort: h.sort, base: h.base, ups: h.ups[:len(h.ups):len(h.ups)]}
+}
 
 func (h *HArr) read(ref string) string {
 	r := sSel(h.base, ref)
@@ -422,23 +424,23 @@ type Deferred struct {
 }
 
 type State struct {
-	env      map[ssa.Value]Val
-	heap     map[string]*HArr // heap key (with comp suffix) -> one-level array (base + point updates)
-	lazy     map[string]*Lazy
-	epoch    int
-	hv       int // heap version counter (bumped on every mutation)
-	pc       []PCItem
-	held     map[string]string // lock address key -> Bool term ("true","false", symbolic); "R:" prefix for read-held
-	defers   [][]Deferred
-	alloc    string
-	ghost    map[string]Val
-	idx      []string // index terms seen on this path (for quantifier instantiation)
-	visited  map[ssa.Value]string // range-over-map iterator -> visited set term
+	env        map[ssa.Value]Val
+	heap       map[string]*HArr // heap key (with comp suffix) -> one-level array (base + point updates)
+	lazy       map[string]*Lazy
+	epoch      int
+	hv         int // heap version counter (bumped on every mutation)
+	pc         []PCItem
+	held       map[string]string // lock address key -> Bool term ("true","false", symbolic); "R:" prefix for read-held
+	defers     [][]Deferred
+	alloc      string
+	ghost      map[string]Val
+	idx        []IdxT               // index terms seen on this path, with the sequence they index
+	visited    map[ssa.Value]string // range-over-map iterator -> visited set term
 	visitedKey string
-	dbg      map[string]Val // source-level names -> current values (from DebugRef / loop phis)
-	dbgAddr  map[string]Val // names of variables that live in memory -> their address
-	applied  map[string]bool // pure applications whose contract instance was already assumed on this path
-	depth    int
+	dbg        map[string]Val  // source-level names -> current values (from DebugRef / loop phis)
+	dbgAddr    map[string]Val  // names of variables that live in memory -> their address
+	applied    map[string]bool // pure applications whose contract instance was already assumed on this path
+	depth      int
 }
 
 func (st *State) clone() *State {
@@ -493,16 +495,21 @@ func (st *State) assume(f string) {
 	st.pc = append(st.pc, PCItem{F: f})
 }
 
-func (st *State) addIdx(t string) {
-	if t == "" || len(t) > 200 {
+// IdxT is an index term together with the backing array (sequence) it was used to index ("" = unknown)
+type IdxT struct{ T, Seq string }
+
+func (st *State) addIdx(t string) { st.addIdxSeq(t, "") }
+
+func (st *State) addIdxSeq(t, seq string) {
+	if t == "" || len(t) > 300 || strings.Contains(t, "?") {
 		return
 	}
 	for _, x := range st.idx {
-		if x == t {
+		if x.T == t && x.Seq == seq {
 			return
 		}
 	}
-	st.idx = append(st.idx, t)
+	st.idx = append(st.idx, IdxT{t, seq})
 }
 
 // ---------- out-of-subset signalling ----------
